@@ -18,15 +18,15 @@ Import ListNotations.
 
 (* ---- program counters ---- *)
 (* where a thread is inside iv_event_post(e) (P..) or, for the owner, inside
-   iv_event_unregister(e) of an event that is on a list (U..) *)
+   iv_event_unregister(e) (U..) *)
 Inductive ppc :=
 | PIdle
 | PBegun (e : nat)                  (* `a ep<k>.<e>`: in the call, before ___mutex_lock *)
 | PLocked (e : nat) (post : bool)   (* holds the mutex; list updated; `post` decided *)
 | PAtKick (e : nat) (post : bool)   (* unlocked; owes the wake-up iff post *)
 | PKicked (e : nat)                 (* wake-up sent; call not yet returned *)
-| UWant (e : nat)                   (* iv_event_unregister(e), e on a list: before the lock *)
-| ULocked (e : nat).                (* ... holds the mutex, e unlinked *)
+| UWant (e : nat)                   (* `a eu<e>`: in iv_event_unregister(e), before ___mutex_lock *)
+| ULocked (e : nat).                (* ... holds the mutex, e unlinked if it was on a list *)
 
 (* where the owner is with respect to __iv_event_run_pending_events *)
 Inductive rpc :=
@@ -267,9 +267,7 @@ Definition step (s : state) (l : label) : option state :=
       then Some (set_reg s (e :: reg s)) else None
   | LUnregister e =>
       if is_idle (get (own s) (thr s)) && run_can_act (run s) && mem e (reg s) && none_on e (thr s)
-      then if mem e (pending s) || mem e (batch s)
-           then Some (set_thr s (set (own s) (UWant e) (thr s)))
-           else Some (finish_unreg s e)
+      then Some (set_thr s (set (own s) (UWant e) (thr s)))
       else None
   | LExit =>
       match run s with
